@@ -126,7 +126,8 @@ func (p *PortSet) Intersection(other *PortSet) {
 
 // IsAll: return true if current PortSet object contains all ports
 func (p *PortSet) IsAll() bool {
-	return p.Equal(MakePortSet(true))
+	// all port numbers: named ports next to them add nothing, and names that were removed earlier are bookkeeping only
+	return p.Ports.Equal(MakePortSet(true).Ports)
 }
 
 const comma = ","
